@@ -971,6 +971,79 @@ def int_from_bytes(b, byteorder="big", *, signed=False):
     return v
 
 
+class SymFile:
+    """binary file object with symbolic content (concrete length) - the subset of io.BytesIO that amoco uses.
+    seek()/read() with a symbolic offset/size realize it (kind 'seek')."""
+
+    name = "<symbolic file>"
+    closed = False
+    mode = "rb"
+
+    def __init__(self, content):
+        self.c = list(content)
+        self.pos = 0
+        self.max_read = 1 << 20
+
+    def _i(self, x):
+        if _real_isinstance(x, SInt):
+            return x.realize("seek")
+        return x
+
+    def seek(self, offset, whence=0):
+        offset = self._i(offset)
+        if whence == 0:
+            if offset < 0:
+                raise ValueError("negative seek value %d" % offset)
+            self.pos = offset
+        elif whence == 1:
+            self.pos = max(0, self.pos + offset)
+        else:
+            self.pos = max(0, _real_len(self.c) + offset)
+        return self.pos
+
+    def tell(self):
+        return self.pos
+
+    def read(self, size=-1):
+        size = self._i(size)
+        if size is None or size < 0:
+            size = _real_len(self.c)
+        if size > self.max_read and size > _real_len(self.c):
+            # a read far beyond the file: returns what is there (no allocation happens in BytesIO either)
+            pass
+        out = self.c[self.pos:self.pos + size]
+        self.pos = min(_real_len(self.c), self.pos + size) if self.pos < _real_len(self.c) else self.pos
+        return SBytes.mk(out)
+
+    def readline(self, size=-1):
+        out = []
+        while self.pos < _real_len(self.c):
+            b = self.c[self.pos]
+            self.pos += 1
+            out.append(b)
+            if b == 0x0A:
+                break
+        return SBytes.mk(out)
+
+    def readlines(self, hint=-1):
+        lines = []
+        while self.pos < _real_len(self.c):
+            lines.append(self.readline())
+        return lines
+
+    def getvalue(self):
+        return SBytes.mk(self.c)
+
+    def __iter__(self):
+        return iter(self.readlines())
+
+    def close(self):
+        pass
+
+    def __len__(self):
+        return _real_len(self.c)
+
+
 # ---------------------------------------------------- injected builtin models
 class _BytesMeta(type):
     def __instancecheck__(cls, x):
@@ -979,7 +1052,7 @@ class _BytesMeta(type):
     def __call__(cls, *a, **k):
         if _real_len(a) == 1 and not k:
             x = a[0]
-            if _real_isinstance(x, SBytes):
+            if _real_isinstance(x, (SBytes, SymFile)):
                 return x
             if _real_isinstance(x, (list, tuple)) and any(_real_isinstance(v, SInt) for v in x):
                 return SBytes.mk(x)
@@ -998,6 +1071,49 @@ class sym_bytes(metaclass=_BytesMeta):
         return _real_bytes.join(sep, parts)
 
 
+def _digit(ch, base):
+    """value of an ASCII digit (int or SInt) in `base`, forking on its character class; ValueError if invalid"""
+    if _real_isinstance(ch, _real_int):
+        try:
+            return _real_int(chr(ch), base)
+        except ValueError:
+            raise ValueError("invalid literal for int() with base %d" % base)
+    if ch >= 0x30 and ch <= (0x39 if base >= 10 else 0x30 + base - 1):
+        return ch - 0x30
+    if base > 10:
+        if ch >= 0x61 and ch <= 0x61 + base - 11:
+            return ch - 0x61 + 10
+        if ch >= 0x41 and ch <= 0x41 + base - 11:
+            return ch - 0x41 + 10
+    raise ValueError("invalid literal for int() with base %d" % base)
+
+
+def int_from_ascii(bs, base=10):
+    """int(b'..', base) on (symbolic) ASCII bytes: no sign, no whitespace, no underscores (what amoco's parsers use)"""
+    es = list(bs)
+    if not es:
+        raise ValueError("invalid literal for int() with base %d: b''" % base)
+    v = 0
+    for ch in es:
+        v = v * base + _digit(ch, base)
+    return v
+
+
+def hex_decode(bs):
+    """codecs.decode(b'..','hex') on (symbolic) ASCII bytes"""
+    import binascii
+    es = list(bs)
+    if _real_len(es) % 2:
+        raise binascii.Error("Odd-length string")
+    out = []
+    for i in range(0, _real_len(es), 2):
+        try:
+            out.append(_digit(es[i], 16) * 16 + _digit(es[i + 1], 16))
+        except ValueError:
+            raise binascii.Error("Non-hexadecimal digit found")
+    return SBytes.mk(out)
+
+
 class _IntMeta(type):
     def __instancecheck__(cls, x):
         return _real_isinstance(x, (_real_int, SInt))
@@ -1006,6 +1122,9 @@ class _IntMeta(type):
         if _real_len(a) >= 1 and _real_isinstance(a[0], SInt) and _real_len(a) == 1 and not k:
             return a[0]
         if _real_len(a) >= 1 and _real_isinstance(a[0], SBytes):
+            base = a[1] if _real_len(a) > 1 else k.get("base", 10)
+            if _real_isinstance(base, _real_int) and 2 <= base <= 16:
+                return int_from_ascii(a[0], base)
             return _real_int(a[0].realize(), *a[1:], **k)
         return _real_int(*a, **k)
 
@@ -1099,12 +1218,26 @@ class sym_codecs:
     @staticmethod
     def encode(x, *a, **k):
         if _real_isinstance(x, SBytes):
+            enc = a[0] if a else k.get("encoding", "utf-8")
+            if enc in ("hex", "hex_codec"):
+                out = []
+                for b in x:
+                    for n in ((b >> 4) & 0xF, b & 0xF):
+                        if _real_isinstance(n, SInt):
+                            t = zterm(n, 8)
+                            out.append(SInt.mk(z3.If(z3.ULT(t, 10), t + 0x30, t + 0x57), False))
+                        else:
+                            out.append(ord("%x" % n))
+                return SBytes.mk(out)
             return b"<symbolic bytes>"
         return _codecs.encode(x, *a, **k)
 
     @staticmethod
     def decode(x, *a, **k):
         if _real_isinstance(x, SBytes):
+            enc = a[0] if a else k.get("encoding", "utf-8")
+            if enc in ("hex", "hex_codec"):
+                return hex_decode(x)
             x = x.realize()
         return _codecs.decode(x, *a, **k)
 
@@ -1155,6 +1288,8 @@ class injected:
 STUBS = ["isinstance (SInt is an int, SBytes is bytes)",
          "bytes(list-with-symbolic-ints) -> SBytes",
          "int(SInt) -> SInt; int.from_bytes on SBytes",
+         "SymFile: file object with symbolic bytes of concrete length (seek/tell/read/readline/readlines); symbolic offsets and sizes are realized",
+         "int(ascii SBytes, base<=16) and codecs.decode(SBytes,'hex'): digit classes decided by forking, value kept symbolic",
          "codecs.encode(SBytes,'hex') (only used to render log messages) returns a placeholder",
          "dict lookups keyed by a symbolic int on converted tables (SymDict): fork over the existing keys instead of realizing the key",
          "Bits.__init__: the comparison in `if self.ival>0 and (size is None)` is not forked when size is not None (its value cannot matter)"]
